@@ -123,6 +123,10 @@ func c13(tier string) {
 			if k%2 == 1 && nPh > 0 {
 				prop := pick(r, "k1", "k2", "k3", "zz", "k1")
 				inner := pick(r, "ex."+prop, " ex."+prop+" ", "  ex."+prop, "ex."+prop+"\t")
+				if r.Intn(6) == 0 {
+					// a placeholder over a vocabulary the focus node has nothing of: undeclared prefix, underscore, built-in prefix
+					inner = pick(r, "imdb.director", "my_vocab.x", "core.name", "a-b.c-d", "ex.k_1")
+				}
 				parts = append(parts, msgPart{ph: prop, inner: inner})
 				nPh--
 				continue
@@ -157,8 +161,7 @@ func c13(tier string) {
 		rendered := c13Placeholder.ReplaceAllStringFunc(message, func(m string) string {
 			sub := c13Placeholder.FindStringSubmatch(m)
 			if sub[1] != "ex" {
-				skip = true // accidental placeholder with an undeclared prefix: outside the judged space
-				return m
+				return "null" // the focus node has no value for a property of an undeclared / other vocabulary
 			}
 			if v, ok := values[sub[2]]; ok {
 				return v
